@@ -177,7 +177,7 @@ def make_rdms(a, groups):
         # integral data RDMs (counts, Hamming distances) stored in a narrow integer type:
         # the ceilings are those of the numbers held, whatever the storage type
         a = a.astype(np.uint8 if int(a.sum()) % 4 == 0 else np.int16)
-    return RDMs(a.copy(), rdm_descriptors={'grp': list(groups)})
+    return RDMs(gen.relayout(a.copy()), rdm_descriptors={'grp': list(groups)})
 
 
 # ---------------------------------------------------------------------------
